@@ -33,12 +33,12 @@ def _init(H):
     H['rng'] = random.Random(common.SEED + 6)
 
 
-def _outcome(sv, text, **kw):
+def _outcome(sv, text, _secs=20, **kw):
     try:
-        common.guard(lambda: sv.compile(text, **kw), 20)
+        common.guard(lambda: sv.compile(text, **kw), _secs)
         return 'ok'
     except common.CallTimeout:
-        return 'NoTermination: compile() did not return within 20 s'
+        return 'NoTermination: compile() did not return within %d s' % _secs
     except sv.SelectorSyntaxError:
         return 'SelectorSyntaxError'
     except NotImplementedError:
@@ -297,7 +297,9 @@ def _pump_work(H, chunk):
     for (k, pre, unit, suf, ns) in chunk:
         base = _outcome(sv, pre + unit + suf, namespaces={'ns': 'urn:n'})
         for n in ns:
-            out.append((k, n, base, _outcome(sv, pre + unit * n + suf, namespaces={'ns': 'urn:n'})))
+            # several token patterns are quadratic in the length of a white space run (allowed: C07 bounds the growth, not the constant);
+            # the watchdog only has to tell "slow" from "never"
+            out.append((k, n, base, _outcome(sv, pre + unit * n + suf, _secs=600, namespaces={'ns': 'urn:n'})))
     return out
 
 
@@ -334,7 +336,7 @@ def _pump_part(chk, tier):
             return
     finally:
         shutil.rmtree(tmpd, ignore_errors=True)
-    ns = [2, 7, 100, 4299, 4300, 4301, 5000] + ([20000] if tier == 'quick' else [20000, 100000])
+    ns = [2, 7, 100, 4299, 4300, 4301, 5000] + ([12000] if tier == 'quick' else [12000, 40000])
     jobs = [(k, a, u, b, ns) for k, (a, u, b) in enumerate(PUMP)]
     with mp.get_context('fork').Pool(16, initializer=replay._ginit, initargs=([], _init)) as pool:
         outs = pool.map(replay._gwork, [(_pump_work, [j]) for j in jobs])
